@@ -66,17 +66,18 @@ type Op struct {
 }
 
 type Scenario struct {
-	Kind      int
-	State     int
-	SpinUs    int
-	Agents    [][]Op
-	Choices   []int
-	Scheduled bool
+	Kind       int
+	State      int
+	SpinUs     int
+	LongHoldMs int // the parked handler returns only this long after all agents are done
+	Agents     [][]Op
+	Choices    []int
+	Scheduled  bool
 }
 
 func (s Scenario) String() string {
 	var sb strings.Builder
-	fmt.Fprintf(&sb, "kind=%d state=%d spin=%dus sched=%v agents=", s.Kind, s.State, s.SpinUs, s.Scheduled)
+	fmt.Fprintf(&sb, "kind=%d state=%d spin=%dus sched=%v hold=%dms agents=", s.Kind, s.State, s.SpinUs, s.Scheduled, s.LongHoldMs)
 	for i, a := range s.Agents {
 		if i > 0 {
 			sb.WriteString(" | ")
@@ -126,6 +127,19 @@ func Generate(t *rapid.T, scheduled bool, allowed []int) Scenario {
 	if scheduled {
 		sc.Choices = rapid.SliceOfN(rapid.IntRange(0, 7), 8, 64).Draw(t, "schedule")
 	}
+	// thorough tier, free-running: now and then the handler the receiver sits in goes on for
+	// seconds after the causes were issued (a killed process is finalized when its callback
+	// returns - however long that takes - never while it is still executing)
+	if !scheduled && sc.State == StateInHandler && kit.Tier() == "thorough" && rapid.IntRange(0, 39).Draw(t, "long_hold") == 0 {
+		sc.LongHoldMs = rapid.SampledFrom([]int{1500, 6500}).Draw(t, "hold_ms")
+		for i := range sc.Agents {
+			for j := range sc.Agents[i] {
+				if sc.Agents[i][j].Kind == OpOpenGate {
+					sc.Agents[i][j].Kind = OpSend
+				}
+			}
+		}
+	}
 	return sc
 }
 
@@ -136,19 +150,19 @@ type Cause struct {
 }
 
 type Result struct {
-	Probe       *kit.Probe
-	RecvEvents  []kit.Event
-	Terminated  bool // receiver is gone from the node
-	Causes      []Cause
-	LinkSeen    []error // reasons seen by the linked observer
-	MonSeen     []error // reasons seen by the monitoring observer
-	TrapExits   int     // exit signals from non-parents delivered as messages to a trapping actor
-	Trace       []string
-	CoPark      map[string]bool
-	MaxPark     int
-	Steps       int
+	Probe        *kit.Probe
+	RecvEvents   []kit.Event
+	Terminated   bool // receiver is gone from the node
+	Causes       []Cause
+	LinkSeen     []error // reasons seen by the linked observer
+	MonSeen      []error // reasons seen by the monitoring observer
+	TrapExits    int     // exit signals from non-parents delivered as messages to a trapping actor
+	Trace        []string
+	CoPark       map[string]bool
+	MaxPark      int
+	Steps        int
 	Inconclusive string
-	RecvPID     gen.PID
+	RecvPID      gen.PID
 }
 
 // Run executes the scenario on a fresh node.
@@ -472,6 +486,9 @@ func Run(sc Scenario) (res *Result, err error) {
 		res.MaxPark = sched.MaxPark
 	}
 	<-doneCh
+	if sc.LongHoldMs > 0 && !sc.Scheduled {
+		time.Sleep(time.Duration(sc.LongHoldMs) * time.Millisecond)
+	}
 	for _, f := range openGates {
 		f()
 	}
